@@ -10,6 +10,7 @@ import (
 	"path/filepath"
 	"sync"
 	"sync/atomic"
+	"syscall"
 	"time"
 )
 
@@ -72,6 +73,8 @@ type inprocWorker struct {
 
 func (w *inprocWorker) start() error {
 	w.cmd = exec.Command(w.bin)
+	// the worker must not outlive the harness (code under test may spin forever)
+	w.cmd.SysProcAttr = &syscall.SysProcAttr{Pdeathsig: syscall.SIGKILL}
 	w.cmd.Env = append([]string{"CI=true", "PATH=/usr/bin:/bin"}, w.env...)
 	var err error
 	if w.in, err = w.cmd.StdinPipe(); err != nil {
